@@ -17,10 +17,12 @@ import (
 	"time"
 
 	"github.com/caddyserver/caddy/v2"
+	"github.com/caddyserver/caddy/v2/caddyconfig"
+	"github.com/caddyserver/caddy/v2/caddyconfig/caddyfile"
 	"go.uber.org/zap"
 
 	"github.com/mholt/caddy-l4/layer4"
-	_ "github.com/mholt/caddy-l4/modules/l4throttle"
+	"github.com/mholt/caddy-l4/modules/l4throttle"
 
 	"verif/mc/explore"
 	"verif/mc/hm"
@@ -40,6 +42,56 @@ type Scn struct {
 	Buf        int     `json:"buf"`
 	Supply     string  `json:"supply"` // all | trickle
 	Conns      int     `json:"conns"`
+	// Form "caddyfile": the same options written as a Caddyfile block and parsed by the
+	// handler's UnmarshalCaddyfile (the configured limits are the ones written down)
+	Form string `json:"form,omitempty"`
+}
+
+func throttleConfig(sc *Scn) map[string]any {
+	th := map[string]any{"handler": "throttle"}
+	if sc.Form == "caddyfile" {
+		var sb strings.Builder
+		sb.WriteString("throttle {\n")
+		if sc.Burst > 0 { // (written before the rate on purpose: option order is free)
+			fmt.Fprintf(&sb, "\tread_burst_size %d\n", sc.Burst)
+		}
+		if sc.Rate > 0 {
+			fmt.Fprintf(&sb, "\tread_bytes_per_second %g\n", sc.Rate)
+		}
+		if sc.TotalRate > 0 {
+			fmt.Fprintf(&sb, "\ttotal_read_bytes_per_second %g\n", sc.TotalRate)
+		}
+		if sc.TotalBurst > 0 {
+			fmt.Fprintf(&sb, "\ttotal_read_burst_size %d\n", sc.TotalBurst)
+		}
+		if sc.LatencyMS > 0 {
+			fmt.Fprintf(&sb, "\tlatency %dms\n", sc.LatencyMS)
+		}
+		sb.WriteString("}\n")
+		h := &l4throttle.Handler{}
+		if err := h.UnmarshalCaddyfile(caddyfile.NewTestDispenser(sb.String())); err != nil {
+			panic(fmt.Sprintf("the throttle block does not parse: %v\n%s", err, sb.String()))
+		}
+		var m map[string]any
+		json.Unmarshal(caddyconfig.JSONModuleObject(h, "handler", "throttle", nil), &m)
+		return m
+	}
+	if sc.Rate > 0 {
+		th["read_bytes_per_second"] = sc.Rate
+	}
+	if sc.Burst > 0 {
+		th["read_burst_size"] = sc.Burst
+	}
+	if sc.TotalRate > 0 {
+		th["total_read_bytes_per_second"] = sc.TotalRate
+	}
+	if sc.TotalBurst > 0 {
+		th["total_read_burst_size"] = sc.TotalBurst
+	}
+	if sc.LatencyMS > 0 {
+		th["latency"] = fmt.Sprintf("%dms", sc.LatencyMS)
+	}
+	return th
 }
 
 type recorded struct {
@@ -109,22 +161,7 @@ func execute(x *explore.Exec, sc *Scn) *result {
 	res.out = vsched.Run(x, vsched.Options{Horizon: 30000, Trace: trace}, func() {
 		ctx, cancel := caddy.NewContext(caddy.Context{Context: context.Background()})
 		defer cancel()
-		th := map[string]any{"handler": "throttle"}
-		if sc.Rate > 0 {
-			th["read_bytes_per_second"] = sc.Rate
-		}
-		if sc.Burst > 0 {
-			th["read_burst_size"] = sc.Burst
-		}
-		if sc.TotalRate > 0 {
-			th["total_read_bytes_per_second"] = sc.TotalRate
-		}
-		if sc.TotalBurst > 0 {
-			th["total_read_burst_size"] = sc.TotalBurst
-		}
-		if sc.LatencyMS > 0 {
-			th["latency"] = fmt.Sprintf("%dms", sc.LatencyMS)
-		}
+		th := throttleConfig(sc)
 		routes := []map[string]any{{"handle": []map[string]any{th, {"handler": "h_sink", "buf": sc.Buf}}}}
 		srv := &layer4.Server{}
 		if err := json.Unmarshal(hm.J(routes), &srv.Routes); err != nil {
@@ -283,6 +320,19 @@ func scenarios(tier string, yield func(any) bool) {
 	tot := []lim{{0, 0}, {5, 0}, {2, 3}}
 	if tier != "thorough" {
 		per = []lim{{0, 0}, {2, 0}, {5, 3}, {1000, 0}, {2.5, 1}}
+	}
+	// the limits written as a Caddyfile block
+	for _, p := range per {
+		for _, t := range tot {
+			if p.rate == 0 && t.rate == 0 {
+				continue
+			}
+			for _, sz := range []int{8, 20} {
+				if !yield(&Scn{Rate: p.rate, Burst: p.burst, TotalRate: t.rate, TotalBurst: t.burst, Size: sz, Buf: 64, Supply: "all", Conns: 1, Form: "caddyfile"}) {
+					return
+				}
+			}
+		}
 	}
 	for _, conns := range []int{1, 2} {
 		for _, p := range per {
